@@ -21,7 +21,7 @@ def inner_fn(ev):
     d = ev.inst.get("dbg") or []
     for x in d:
         if x["file"].startswith(C.REPO):
-            return x.get("fn") or "?", "%s:%d" % (C.repo_rel(x["file"]), x["line"])
+            return (x.get("fn") or "?").split("<")[0], "%s:%d" % (C.repo_rel(x["file"]), x["line"])
     return (d[0].get("fn") if d else "?"), (("%s:%d" % (d[0]["file"], d[0]["line"])) if d else "?")
 
 
